@@ -26,6 +26,6 @@ def jobs(tier):
                         bounds='deck of three keywords parsed from text whose first record body is every string of <= %d 7-bit bytes (no quote, slash, dash); print, re-parse, print' % hn))
     out.append(dict(name='deck_roundtrip_list', src='h_deckrt.cpp', defs={'HN': hn, 'KWSEL': 0}, entry='h_deck_list', tus=PT, fp='real', loopmax=4000, maxsteps=200000000, timeout=900 if tier == 'quick' else 7200, opts=['--ctors'],
                     bounds='deck of a list keyword (GRUPTREE) with 0, 1 or 2 records (symbolic or defaulted parent name) followed by two keywords; print, re-parse, print'))
-    out.append(dict(name='deck_roundtrip_udq', src='h_deckrt.cpp', defs={'HN': hn, 'KWSEL': 0}, entry='h_deck_udq', tus=PT + ['_build/ParserKeywords/T.cpp', '_build/ParserKeywords/U.cpp'], fp='real', loopmax=4000, maxsteps=200000000,
+    out.append(dict(name='deck_roundtrip_udq', src='h_deckrt.cpp', defs={'HN': hn, 'KWSEL': 0, 'UDQJOB': 1}, entry='h_deck_udq', tus=PT + ['_build/ParserKeywords/T.cpp', '_build/ParserKeywords/U.cpp'], fp='real', loopmax=4000, maxsteps=200000000,
                     timeout=900 if tier == 'quick' else 7200, opts=['--ctors'], bounds='deck TSTEP + UDQ DEFINE with five symbolic operators out of + - * / + EQLDIMS; print, re-parse, print'))
     return out
